@@ -12,7 +12,7 @@
 EXTENDS Settings, Json, IOUtils
 T == ndJsonDeserialize(IOEnv.TRACE)
 MaxFails == 400
-AllFix == {"numchips", "trackopt"}
+AllFix == {"numchips", "trackopt", "dumper"}
 VARIABLES l, pre, R, fails, cnt, drift, exec, xf
 vars == <<l, pre, R, fails, cnt, drift, exec, xf>>
 Cnt0 == [steps |-> 0, execs |-> 0, stick |-> 0, auto |-> 0, persist |-> 0, rejected |-> 0, rejbank |-> 0, rejmidi |-> 0,
@@ -30,8 +30,9 @@ AddFails(S, already) == IF already \/ Len(fails) >= MaxFails \/ S = {} THEN fail
 B2N(c) == IF c THEN 1 ELSE 0
 
 Proj(o) == [f \in ModelF |-> o[f]]
-Matches(m, o, ev, r) == (\A f \in ModelF : m.s[f] = o[f]) /\ (HasR(ev) => m.r = r)
-DiffF(m, o, ev, r) == { f \in ModelF : m.s[f] # o[f] } \cup (IF HasR(ev) /\ m.r # r THEN {"ret"} ELSE {})
+Same(m, o, f) == m.s[f] = o[f] \/ (f = "ho" /\ m.s.ho = -1)            \* -1: any value (see Settings!AfterReset)
+Matches(m, o, ev, r) == (\A f \in ModelF : Same(m, o, f)) /\ (HasR(ev) => m.r = r)
+DiffF(m, o, ev, r) == { f \in ModelF : ~Same(m, o, f) } \cup (IF HasR(ev) /\ m.r # r THEN {"ret"} ELSE {})
 
 StepInit(ev) ==
   LET a == Norm(ev.oa)  b == Norm(ev.ob)
